@@ -196,8 +196,7 @@ def main(argv):
         scale = (1.0 if a.tier == "quick" else 25.0) * a.scale
         exes = build_many(cfgs)
         tasks = [(s, NCPU, a.seed, [(c, exes[c]) for c in cfgs], scale) for s in range(NCPU)]
-        with mp.Pool(NCPU) as pool:
-            results = pool.map(worker, tasks, chunksize=1)
+        results = pmap(worker, tasks, NCPU)
         allowed = 0
         for r in results:
             if "fatal" in r:
